@@ -9,10 +9,22 @@ FUNCS = ["MULTA", "POLY", "MULTIPLY", "MULTX", "ADDX", "COPY", "MAXLIM", "MINLIM
 def rand_box(rng, dims):
     b = []
     for n in dims:
-        a = rng.randint(1, n)
-        c = rng.randint(a, n)
+        a = 1 if rng.random() < 0.35 else rng.randint(1, n)
+        c = n if rng.random() < 0.35 else rng.randint(a, n)
         b += [a, c]
     return b
+
+
+def rand_dflt(rng, dims, b):
+    """which items of the box are written as defaulted (1*): only items that equal their default (1 / the grid extent),
+    and never all six - a fully defaulted box means the current box"""
+    if not b:
+        return []
+    full = [1, dims[0], 1, dims[1], 1, dims[2]]
+    f = [b[i] == full[i] and rng.random() < 0.6 for i in range(6)]
+    if all(f):
+        f[rng.randrange(6)] = False
+    return f
 
 
 def box_size(b):
@@ -45,7 +57,7 @@ def rand_program(rng, cid, max_ops):
             allkw = dbl + ints
             if k < 0.10:
                 cur = rand_box(rng, dims)
-                prog.append({"op": "BOX", "box": list(cur)})
+                prog.append({"op": "BOX", "box": list(cur), "dflt": rand_dflt(rng, dims, cur)})
             elif k < 0.15:
                 cur = list(full)
                 prog.append({"op": "ENDBOX"})
@@ -59,18 +71,19 @@ def rand_program(rng, cid, max_ops):
                 op = rng.choice(["EQUALS", "EQUALS", "ADD", "MULTIPLY", "MINVALUE", "MAXVALUE"])
                 kw = rng.choice(allkw) if op == "EQUALS" else pick(allkw)
                 b = rand_box(rng, dims) if rng.random() < 0.6 else []
-                prog.append({"op": op, "kw": kw, "v": rng.randint(1, 5), "box": b})
+                prog.append({"op": op, "kw": kw, "v": rng.randint(1, 5), "box": b, "dflt": rand_dflt(rng, dims, b)})
                 if op == "EQUALS" and (b == full or (b == [] and cur == full)):
                     complete.add(kw)
             elif k < 0.75:
                 pool = ints if (not dbl or (ints and rng.random() < 0.3)) else dbl
-                prog.append({"op": "COPY", "src": pick(pool), "dst": rng.choice(pool),
-                             "box": rand_box(rng, dims) if rng.random() < 0.5 else []})
+                b = rand_box(rng, dims) if rng.random() < 0.5 else []
+                prog.append({"op": "COPY", "src": pick(pool), "dst": rng.choice(pool), "box": b, "dflt": rand_dflt(rng, dims, b)})
             elif k < 0.83 and len(dbl) >= 1:
                 f = rng.choice(FUNCS)
+                b = rand_box(rng, dims) if rng.random() < 0.6 else []
                 prog.append({"op": "OPERATE", "dst": pick(dbl, 0.6), "src": pick(dbl), "f": f,
                              "a": rng.randint(1, 3), "b": rng.randint(0, 2) if f in ("POLY", "MULTP") else rng.randint(0, 3),
-                             "box": rand_box(rng, dims) if rng.random() < 0.6 else []})
+                             "box": b, "dflt": rand_dflt(rng, dims, b)})
             elif k < 0.93 and dbl:
                 op = rng.choice(["EQUALREG", "ADDREG", "MULTIREG"])
                 prog.append({"op": op, "kw": rng.choice(dbl) if op == "EQUALREG" else pick(dbl), "v": rng.randint(1, 4),
@@ -109,8 +122,10 @@ def rand_program(rng, cid, max_ops):
     return {"id": cid, "dims": dims, "actnum": actnum, "prog": prog, "deck": render(dims, actnum, prog)}
 
 
-def fmt_box(b):
-    return " ".join(str(x) for x in b) if b else "6*"
+def fmt_box(b, dflt=None):
+    if not b:
+        return "6*"
+    return " ".join("1*" if (dflt and dflt[i]) else str(x) for i, x in enumerate(b))
 
 
 def render(dims, actnum, prog):
@@ -126,17 +141,17 @@ def render(dims, actnum, prog):
                 s += header
                 header = ""
         elif k == "BOX":
-            s += "BOX\n %s /\n" % fmt_box(o["box"])
+            s += "BOX\n %s /\n" % fmt_box(o["box"], o.get("dflt"))
         elif k == "ENDBOX":
             s += "ENDBOX\n"
         elif k == "ARRAY":
             s += "%s\n %s /\n" % (o["kw"], " ".join("1*" if v == -999 else str(v) for v in o["vals"]))
         elif k in ("EQUALS", "ADD", "MULTIPLY", "MINVALUE", "MAXVALUE"):
-            s += "%s\n %s %d %s /\n/\n" % (k, o["kw"], o["v"], fmt_box(o["box"]))
+            s += "%s\n %s %d %s /\n/\n" % (k, o["kw"], o["v"], fmt_box(o["box"], o.get("dflt")))
         elif k == "COPY":
-            s += "COPY\n %s %s %s /\n/\n" % (o["src"], o["dst"], fmt_box(o["box"]))
+            s += "COPY\n %s %s %s /\n/\n" % (o["src"], o["dst"], fmt_box(o["box"], o.get("dflt")))
         elif k == "OPERATE":
-            s += "OPERATE\n %s %s %s %s %d %d /\n/\n" % (o["dst"], fmt_box(o["box"]), o["f"], o["src"], o["a"], o["b"])
+            s += "OPERATE\n %s %s %s %s %d %d /\n/\n" % (o["dst"], fmt_box(o["box"], o.get("dflt")), o["f"], o["src"], o["a"], o["b"])
         elif k in ("EQUALREG", "ADDREG", "MULTIREG"):
             s += "%s\n %s %d %d %s /\n/\n" % (k, o["kw"], o["v"], o["val"], o["reg"])
         elif k == "COPYREG":
